@@ -219,11 +219,16 @@ CLAIMED['C14'] = dict(
          'explicit internal-error outcome; totality itself (no internal outcome, fuel never exhausted) is tied by exception-class correspondence '
          'on every built-in function x admissible argument shape x {expression, predicate, nested} and random inputs, with allowed exceptions '
          'judged by the statement (simplify only on inputs undefined under every valuation, split_and ValueError, TypeError of replacements on '
-         'predicates). One known finding (canonical_form raising HplSanityError when a split unbinds an alias).',
+         'predicates). One known finding (canonical_form raising HplSanityError when a split unbinds an alias). TOTALITY PROPER IS A THEOREM FOR '
+         'refactor_reference on expressions (Props/C14b): refactorExpr_total / refactorExpr_total_parsed - on every tree the parser builds '
+         '(well-typed, quantifier and call nodes accepted by their constructors) and for every alias, no constructor call inside the rewrite fails, '
+         'no assertion fires and the fuel suffices; the core is mkForall_part (the quantifier constructor accepts every part of an accepted '
+         'condition that still mentions the variable) and emptyTest_ok; and for the two replacements (replace_roundtrip_parsed, Props/C13d).',
     design_ref='DESIGN.md §6 C14',
-    note='PARTIAL: totality (absence of internal outcomes for every well-typed input) is not yet a theorem; it is established by '
-         'correspondence and by the four crash defects found and fixed (AssertionError, UnboundLocalError, IndexError, TypeError of re-association).',
-    technique='Lean 4 result-kind theorems (partial) + exception-class correspondence over the enumerated function/argument-shape table')
+    note='PARTIAL: totality is a theorem for refactor_reference (expressions) and the this/var replacements; for simplify, split_and and '
+         'canonical_form it is established by correspondence and by the four crash defects found and fixed (AssertionError, UnboundLocalError, '
+         'IndexError, TypeError of re-association).',
+    technique='Lean 4 totality proof for refactor_reference and the replacements, result-kind theorems + exception-class correspondence over the enumerated function/argument-shape table')
 
 CLAIMED['C01'] = dict(
     text='Lean 4 theorem parse_complete (Props/C01b): for every token sequence that the declarative grammar Renders (Spec/Grammar.lean: the '
